@@ -22,11 +22,25 @@ import (
 var c17Names = []string{"c", "a", "b"}
 
 // c17PresetNamed: like c17Preset but the members are the concrete names c, a, b (0..max of them).
+// c17Cap2: the harness keeps sorted sets at 0..2 members in the thorough tier too (its other inputs
+// already multiply to what fits the thorough budget).
+var c17Cap2 bool
+
+// c17Three: the harness uses 0..3 members in the quick tier as well.
+var c17Three bool
+
 func c17PresetNamed(s *SugarDB, k, name string, kinds int, sameScore bool) c17Pre {
 	p := c17Pre{kind: vr.Choose(name+"_kind", kinds)}
 	switch p.kind {
 	case kZSet:
-		n := vr.Choose(name+"_n", c17Max()+1)
+		max := c17Max()
+		if c17Cap2 {
+			max = 2
+		}
+		if c17Three {
+			max = 3
+		}
+		n := vr.Choose(name+"_n", max+1)
 		var params []ss.MemberParam
 		for i := 0; i < n; i++ {
 			m := c17M{name: c17Names[i], score: vr.Float(name + "_s" + strconv.Itoa(i))}
@@ -720,6 +734,7 @@ func c17Window(order []c17M, hasLimit bool, offset, count int, lov, hiv float64)
 }
 
 func c17RangeByScore(store, hasLimit bool) {
+	c17Cap2 = true
 	s := verifServer()
 	k := vr.Tok("k")
 	p := c17PresetNamed(s, k, "z", 3, false)
@@ -848,9 +863,10 @@ func c17Algebra(op string, store bool) {
 		p1 = c17PresetMenu(s, k1, "a", 2, [][]float64{{1.5, 4}, {0.5, 4}})
 		p2 = c17PresetMenu(s, k2, "b", 1, [][]float64{{4, -3, 1.5}})
 	} else {
+		// thorough tier: arbitrary finite doubles, 0..2 members against 0..1
 		p1 = c17Preset(s, k1, "a", 2)
 		p2 = c17Preset(s, k2, "b", 2)
-		vr.Assume(len(p2.members) <= 1 || len(p1.members) <= 1)
+		vr.Assume(len(p1.members) <= 2 && len(p2.members) <= 1)
 	}
 	for _, p := range []c17Pre{p1, p2} {
 		for _, m := range p.members {
@@ -1052,5 +1068,53 @@ func Verif_C17_ZRandMember() {
 		}
 	}
 	c17Holds(s, k, p, "C17.zrandmember.unchanged")
+	vr.Reach("end")
+}
+
+// Verif_C17_ZRangeLimitWindow: the LIMIT window alone, on up to three members with arbitrary scores and
+// no bound filter (-inf +inf): offset 0..3, count -1..3 (a negative count: up to the end), forward and
+// REV, ZRANGE and ZRANGESTORE.
+func Verif_C17_ZRangeLimitWindow() {
+	c17Three = true
+	s := verifServer()
+	k := vr.Tok("k")
+	p := c17PresetNamed(s, k, "z", 2, false)
+	vr.Assume(p.kind == kZSet)
+	rev := vr.Choose("rev", 2) == 1
+	store := vr.Choose("store", 2) == 1
+	offset, count := vr.Choose("offset", 4), vr.Choose("count", 5)-1
+	var argv []string
+	dst := "dst"
+	if store {
+		vr.Assume(k != dst)
+		argv = []string{"ZRANGESTORE", dst, k, "-inf", "+inf", "BYSCORE"}
+	} else {
+		argv = []string{"ZRANGE", k, "-inf", "+inf", "BYSCORE", "WITHSCORES"}
+	}
+	if rev {
+		argv = append(argv, "REV")
+	}
+	argv = append(argv, "LIMIT", strconv.Itoa(offset), strconv.Itoa(count))
+	reply, err, ok := c17Exec(s, "C17.zrange_limit", argv...)
+	if !ok {
+		return
+	}
+	vr.Assert(err == nil, "C17.zrange_limit.noerror")
+	if err != nil {
+		return
+	}
+	order := c17Sorted(p.members)
+	if rev {
+		order = c17Rev(order)
+	}
+	want := c17Window(order, true, offset, count, math.Inf(-1), math.Inf(1))
+	if store {
+		vr.Assert(isIntReply(reply, len(want)) && c17HoldsQuiet(s, dst, want), "C17.zrange_limit.destination_holds_the_window")
+	} else {
+		r, isArr := arrayReply(reply)
+		items, shape := c17Items(r, true)
+		vr.Assert(isArr && shape && c17Match(items, want, true, true), "C17.zrange_limit.window_in_order")
+	}
+	c17Holds(s, k, p, "C17.zrange_limit.source_unchanged")
 	vr.Reach("end")
 }
